@@ -246,6 +246,20 @@ Fixpoint after_pct (s : bytes) : option bytes :=
   | c :: r => if byte_eqb c x25 then Some r else after_pct r
   end.
 
+(* what forge.py assumes of the table (hard-coded prefix lengths 3 / 4, the rows it names):
+   computable, evaluated on the pinned table and on the table read from /repo *)
+Definition row_with (t : list row) (tp : bytes) (pl bl : nat) : bool :=
+  match find_enc t (repeat x00 pl) tp with
+  | Some r => Nat.eqb (length (bpre r)) bl
+  | None => false
+  end.
+
+Definition domain_rows_ok (t : list row) : bool :=
+  forallb (fun k => row_with t (addr_tpre k) 20 (match k with Txr1 => 4 | _ => 3 end)) all_addr_kinds &&
+  forallb (fun k => row_with t (key_tpre k) (key_len k) 4) all_key_kinds &&
+  forallb (fun k => match find_enc t (repeat x00 (sig_len k)) (sig_tpre k) with Some _ => true | None => false end) all_sig_kinds &&
+  match find_enc t (repeat x00 4) (tx "Net") with Some _ => true | None => false end.
+
 Section Text.
   Variable sha256 : bytes -> bytes.
   Variable t : list row.
